@@ -22,7 +22,7 @@ RULE = (
     "which a drawn one has another, one more or one fewer source name than the rest (variable build), bitmap_resolution > 255 for cbdt. Real CLI. Oracle: exit status != 0 and no output font written "
     "by this invocation; if the command exits 0 instead the font is judged like C04/C01: every source (the defective one included) must be "
     "reachable from its codepoints at a glyph of its own carrying its own signature colour; a missing, merged or re-painted source is reported. "
-    "API tier: write_font._generate_color_font with two inputs of one glyph name / sequence must raise or keep both. Non-trivial: >= 2 valid "
+    "API tier: write_font._generate_color_font with two inputs of one sequence, or of one glyph name and different sequences, must raise or keep both. Non-trivial: >= 2 valid "
     "sources and the defect not in first position."
 )
 ASSUMPTIONS = ["picosvg's own failures count as the build stopping (they exit non-zero through ninja)"]
@@ -82,6 +82,9 @@ def enumerate_cases(tier):
         for which in range(nm):
             for kind in ("swap", "extra", "missing"):
                 yield {"defect": "masters_mismatch", "fmt": "glyf_colr_1", "cps": cps, "pos": 1, "seq_tail": None, "mm": {"masters": nm, "which": which, "kind": kind}}
+    for fmt in ("glyf_colr_1", "glyf_colr_0", "picosvg"):
+        for pos in (1, 2):  # odd: one name for two sequences; even: one sequence twice
+            yield {"defect": "api_dup_name", "fmt": fmt, "cps": cps, "pos": pos, "seq_tail": None, "mm": None}
     for d in DEFECTS:
         if d not in ("masters_mismatch", "api_dup_name"):
             fmt = "cbdt" if d == "cbdt_too_big" else "glyf_colr_1"
@@ -160,7 +163,14 @@ def judge_api(case, v):
     cps = case["cps"]
     srcs = [{"svg": good_svg(i), "cps": [c]} for i, c in enumerate(cps)]
     dup = {"svg": good_svg(len(cps)), "cps": [cps[0]]}
+    if case["pos"] % 2 == 1:
+        # the same glyph *name* for another codepoint sequence (what a careless glyph-map generator produces)
+        srcs[0]["name"] = "shared_name"
+        dup = {"svg": good_svg(len(cps)), "cps": [0x1F6AA], "name": "shared_name"}
+        v.cls("api:same-name-other-codepoints")
     srcs.insert(min(case["pos"], len(srcs)), dup)
+    for s_ in srcs:  # the API takes picosvg normal form, which always has a <defs/>
+        s_["svg"] = s_["svg"].replace('viewBox="0 0 100 100">', 'viewBox="0 0 100 100"><defs/>', 1)
     fmt = case["fmt"]
     if fmt in ("cbdt", "sbix"):
         fmt = "glyf_colr_1"
